@@ -108,6 +108,7 @@ type chainT struct {
 	blockNo uint64
 	txID    uint64
 	freeBridgers []sdk.AccAddress // bridger accounts oracles of this chain held earlier
+	noModel bool // a history built through the real handlers only (no op lines): monitors only
 }
 
 func (c *chainT) addrStr(b []byte) string { return types.ExternalAddrToStr(c.name, b) }
@@ -266,14 +267,25 @@ func genGid(rng *rand.Rand) string {
 	for i := range b {
 		b[i] = cs[rng.Intn(len(cs))]
 	}
+	// what Params.ValidateBasic admits beyond plain ASCII: NUL bytes (trailing ones are indistinguishable from the padding),
+	// any other byte value, multi-byte UTF-8 (the limit is 32 BYTES)
+	switch rng.Intn(10) {
+	case 0:
+		if n > 1 {
+			b[n-1] = 0
+		}
+	case 1:
+		b[rng.Intn(n)] = 0
+	case 2:
+		b[rng.Intn(n)] = byte(128 + rng.Intn(128))
+	case 3:
+		return strings.Repeat("é", 1+rng.Intn(16))
+	}
 	return string(b)
 }
 
-func gidHex(g string) string {
-	b := make([]byte, 32)
-	copy(b, g)
-	return hex.EncodeToString(b)
-}
+// gidHex: the gravity-id TEXT as hex (the model packs it with the regenerated StrToByte32)
+func gidHex(g string) string { return hx.HexS(g) }
 
 // ---- the digest the contract recomputes (monitor) -----------------------------------------------------------------
 // Independent of the Lean model: go-ethereum's ABI packer over the argument list read from the Solidity source
@@ -699,12 +711,31 @@ func (h *hCtx) putBatch(c *chainT, b0 *types.OutgoingTxBatch) *objT {
 	if err := c.k.StoreBatch(h.ctx, &b); err != nil {
 		h.t.Fatalf("StoreBatch: %v", err)
 	}
+	return h.emitBatch(c, &b, b0, parts, cp)
+}
+
+func (h *hCtx) emitBatch(c *chainT, b, b0 *types.OutgoingTxBatch, parts []string, cp func(gid string) ([]byte, error)) *objT {
 	token, fr := b20(c, b.TokenContract), b20(c, b.FeeReceive)
-	sol, _ := solOfBatch(c, &b)
+	sol, _ := solOfBatch(c, b)
 	o := &objT{kind: "batch", nonce: b.BatchNonce, token: b.TokenContract, cp: cp, sol: sol, proto: b0}
 	h.emitStore(c, o, fmt.Sprintf("batch %s %s %s %d %d %s %s", c.name, b.TokenContract, hex.EncodeToString(token), b.BatchNonce, b.BatchTimeout,
 		hex.EncodeToString(fr), joinOrDash(parts)), allSafe(b.BatchNonce, b.BatchTimeout))
 	return o
+}
+
+// registerBatch: a batch the real builder has already stored joins the chain's objects (no second store)
+func (h *hCtx) registerBatch(c *chainT, b, b0 *types.OutgoingTxBatch) *objT {
+	var parts []string
+	for _, t := range b.Transactions {
+		parts = append(parts, fmt.Sprintf("%s:%s:%s", t.Token.Amount.String(), hex.EncodeToString(b20(c, t.DestAddress)), t.Fee.Amount.String()))
+	}
+	cp := func(gid string) ([]byte, error) {
+		if c.tron {
+			return trontypes.GetCheckpointConfirmBatch(b, gid)
+		}
+		return b.GetCheckpoint(gid)
+	}
+	return h.emitBatch(c, b, b0, parts, cp)
 }
 
 func (h *hCtx) storeBatch(c *chainT, token []byte, nonce uint64, safe bool) *objT {
@@ -1787,6 +1818,14 @@ func (h *hCtx) genesisRoundTrip(c *chainT) {
 		}
 	}
 	h.out.Stats.Extra["genesis_round_trip_confirms_kept_of"] = fmt.Sprintf("%d/%d", kept, len(before))
+	// correspondence: the model's round trip (regenerated export lists + import comparison) keeps the same number per kind
+	cnt := map[string]int{}
+	for _, e := range after {
+		cnt[e.key.kind]++
+	}
+	if !c.noModel {
+		h.out.Emit("genesis "+c.name, fmt.Sprintf("oset=%d batch=%d bcall=%d of=%d", cnt["oset"], cnt["batch"], cnt["bcall"], len(before)))
+	}
 	for _, b := range before {
 		found := false
 		for _, e := range after {
@@ -1810,7 +1849,7 @@ func (h *hCtx) genesisBridgerReuse() {
 	name := "eth"
 	cctx, _ := s.Ctx.CacheContext()
 	h.ctx = cctx
-	c := &chainT{name: name, k: k, ledger: map[string]*objT{}, accRec: map[string]types.Oracle{}, gid: k.GetGravityID(cctx)}
+	c := &chainT{name: name, k: k, ledger: map[string]*objT{}, accRec: map[string]types.Oracle{}, gid: k.GetGravityID(cctx), noModel: true}
 	keyA, _ := crypto.GenerateKey()
 	a := &oracleT{id: 0, addr: helpers.GenAccAddress(), bridger: helpers.GenAccAddress(), key: keyA}
 	a.ext = c.addrStr(crypto.PubkeyToAddress(keyA.PublicKey).Bytes())
@@ -2191,8 +2230,17 @@ func TestC12(t *testing.T) {
 				}
 			}
 		}
+		if rng.Intn(3) == 0 {
+			// a padding twin: tron / bsc gets the gravity id of eth followed by NUL bytes — another text, the same bytes32
+			h.paddingTwin(chains[0], chains[1+rng.Intn(2)])
+		}
 		for _, c := range chains {
 			h.populate(c, nObj)
+		}
+		h.gidStream()
+		for _, c := range chains {
+			h.timeoutStream(c)
+			h.buildStream(c)
 		}
 		h.populateCluster(chains[0], chains[1])
 		if rng.Intn(2) == 0 {
